@@ -253,6 +253,22 @@ func c09(c *Ctx) {
 		}
 	}
 
+	// exact copy needs replace semantics: the propagator's applicator is the
+	// updating one (a merge patch keeps keys the XR secret no longer has)
+	if ctor := c.fn(pkgClaim, "NewAPIConnectionPropagator"); ctor != nil {
+		good := false
+		for _, b := range ctor.Blocks {
+			for _, in := range b.Instrs {
+				if st, ok := in.(*ssa.Store); ok && isFieldSel(st.Addr, "resource.ClientApplicator", "Applicator") {
+					good = flow.Strict.AnyCall(st.Val, xprt+"resource.NewAPIUpdatingApplicator")
+				}
+			}
+		}
+		c.R.Check(good, load.FuncName(ctor)+": replace semantics", c.pos(ctor.Pos()), "the claim secret is written with the updating applicator (whole-object replace)", "the claim secret is not written with resource.NewAPIUpdatingApplicator: with merge-patch semantics keys removed from the XR's secret stay in the claim's secret (not an exact copy)")
+	} else {
+		c.R.Unknown("NewAPIConnectionPropagator", "", "constructor not found")
+	}
+
 	c.R.Rule("R9.7", "extraction dispatches on every ConnectionDetailType; optional pointers are dereferenced after their nil test", 4, "an extract config would panic the reconciler or be ignored silently")
 	if ex := c.fn(pkgComposite, "ExtractConnectionDetails"); ex != nil {
 		cdt := c.P.NamedType(pkgComposite, "ConnectionDetailType")
